@@ -747,6 +747,53 @@ theorem C05_protoconf_inrange_policies (p : Protoconf) (h : protoconfC.wf p) :
 theorem C05_reject_inrange_data (r : Reject) (h : rejectC.wf r) :
     r.data.length = if isBlockOrTx r.message then 32 else 0 := h.2.2.2
 
+/-- the `validate()` that `Message::read` runs on a decoded `cmpctblock` never panics: amounts and
+    the running total are checked inside the loop, so the `i64` sum cannot overflow -/
+theorem C05_cmpctblock_validate_no_panic (c : Cmpctblock) (s : String) :
+    cmpctblockValidate c ≠ .panic s := by
+  have hsum : ∀ (l : List TxOut) (acc : Int), acc ≤ (Generated.MAX_SATOSHIS : Int) →
+      ∀ s, sumOutputs l acc ≠ .panic s := by
+    intro l
+    induction l with
+    | nil => intro acc _ s h; simp [sumOutputs] at h
+    | cons o os ih =>
+      intro acc hacc s
+      simp only [sumOutputs]
+      have hM : (Generated.MAX_SATOSHIS : Int) = 2100000000000000 := by decide
+      have hI : I64_MAX = 9223372036854775807 := rfl
+      split
+      · simp
+      · split
+        · simp
+        · split
+          · rename_i h1 h2 h3
+            omega
+          · split
+            · simp
+            · rename_i h1 h2 h3 h4
+              exact ih _ (by omega) s
+  have hp : ∀ p : PrefilledTx, ∀ s, prefilledValidate p ≠ .panic s := by
+    intro p s
+    unfold prefilledValidate badData
+    split
+    · simp
+    · split
+      · simp
+      · cases h : sumOutputs p.tx.outputs 0 with
+        | ok a => simp
+        | err e => simp
+        | panic t => exact absurd h (hsum _ 0 (by decide) t)
+  unfold cmpctblockValidate
+  generalize c.prefilledtxn = l
+  induction l with
+  | nil => simp [allValidate]
+  | cons p ps ih =>
+    simp only [allValidate]
+    cases h : prefilledValidate p with
+    | ok a => simpa using ih
+    | err e => simp
+    | panic t => exact absurd h (hp p t)
+
 /-! ### satisfiability of the hypotheses -/
 
 def sampleTx : Tx :=
